@@ -423,6 +423,7 @@ struct OsScript {
   size_t rdpos = 0, clpos = 0;
   uint64_t stream_pos = 0;
   bool is_open = false;
+  int fdnum = SHIM_FAKE_FD;  // the descriptor number open() hands out
   int opens = 0, closes_ok = 0;
   // per library call
   std::string delivered;
@@ -449,7 +450,7 @@ static int os_open(const char *, int) {
   }
   OS.is_open = true;
   OS.opens++;
-  return SHIM_FAKE_FD;
+  return OS.fdnum;
 }
 static ssize_t os_read(int, void *buf, size_t count) {
   if (!OS.is_open) {
@@ -561,6 +562,7 @@ static rc::Gen<Case> gen_osread(int) {
       c.push_back(Op("cl", {final}));
     }
     for (auto l : lens) c.push_back(Op("fill", {l}));
+    if (*range<int>(0, 5) == 0) c.push_back(Op("fdnum", {0}));
     return c;
   });
 }
@@ -577,6 +579,7 @@ static Outcome run_osread(const Case &c) {
   int eintr_run = 0;
   for (auto &op : c) {
     if (op.k == "seed" && !op.a.empty()) OS.seed = (uint64_t)op.a[0];
+    else if (op.k == "fdnum" && !op.a.empty()) OS.fdnum = op.a[0] == 0 ? 0 : SHIM_FAKE_FD;  // 0: the process had closed its standard input
     else if (op.k == "api" && !op.a.empty()) api = (int)(op.a[0] & 1);
     else if (op.k == "open" && !op.a.empty()) OS.open_errno = (op.a[0] > 0 && op.a[0] < 130) ? (int)op.a[0] : 0;
     else if (op.k == "rd" && op.a.size() >= 2 && OS.rd.size() < 4096) OS.rd.push_back({(int)(((op.a[0] % 4) + 4) % 4), op.a[1]});
@@ -592,6 +595,8 @@ static Outcome run_osread(const Case &c) {
   }
   if (api == 0 && fills.empty()) fills.push_back(32);
   if (api == 0) fills.resize(1);
+  shim_os_set_fd(OS.fdnum);
+  if (OS.fdnum == 0) o.cls("urandom-is-descriptor-0");
   shim_os_arm(&OSCB);
   bool any_short = false, any_fault = false;
   auto per_call = [&](int64_t len, std::function<int(uint8_t *)> call, const char *name) -> bool {
@@ -657,6 +662,7 @@ static Outcome run_osread(const Case &c) {
       if (OS.open_errno) {
         o.fail("osread-failure-ignored", "entropy_read_init returned a cookie although open() failed");
         shim_os_arm(nullptr);
+  shim_os_set_fd(SHIM_FAKE_FD);
         return o;
       }
       for (auto l : fills)
@@ -667,6 +673,7 @@ static Outcome run_osread(const Case &c) {
     }
   }
   shim_os_arm(nullptr);
+  shim_os_set_fd(SHIM_FAKE_FD);
   if (any_short || any_fault) o.nontrivial = true;
   return o;
 }
